@@ -966,13 +966,12 @@ pub fn mtctr(
     let detail = details(instruction)?;
 
     // get operands
-    let dst = get_register(detail.operands[0].reg())?.scalar();
-    let src = expr_const(detail.operands[1].imm() as u64, 32);
+    let src = get_register(detail.operands[0].reg())?.expression();
 
     let block_index = {
         let block = control_flow_graph.new_block()?;
 
-        block.assign(dst, src);
+        block.assign(scalar("ctr", 32), src);
 
         block.index()
     };
